@@ -46,6 +46,13 @@ Theorem handle_frame_total : forall c inner st dec frame,
 Proof. exact handle_frame_total_lemma. Qed.
 Print Assumptions handle_frame_total.
 
+(* The PIT token of a frame has no length bound in handle_frame_total (f_tok LP is any byte list: the generated LpPacket decoder
+   accepts a token of any length, NDNLPv2 says 1..32): e.g. a 1000-byte token on a frame whose payload does not parse. *)
+Example long_token_total :
+  handle_frame true (mkRc true false false false 2) (fun _ => DErr) rs_init
+    (DPkt None None (Some (mkLpf None None None (repeat 7 1000) None None None None (Some [6;0])))) [] = HOk rs_init [].
+Proof. vm_compute. reflexivity. Qed.
+
 (* A frame that fails to decode changes no forwarder state: store and counters equal, nothing dispatched. *)
 Theorem bad_frame_state_unchanged : forall g c inner st frame, handle_frame g c inner st DErr frame = HOk st [].
 Proof. exact bad_frame_state_unchanged_lemma. Qed.
